@@ -49,6 +49,7 @@ type ctAnalysis struct {
 	declUsed map[string]string // "func: text" -> reason
 	funcs    map[string]bool   // functions analysed
 	notes    []string
+	quiet    bool // evaluating an expression only to learn its taint (no obligations recorded)
 }
 
 type ctSummary struct {
@@ -162,6 +163,7 @@ type ctFrame struct {
 	dead    bool
 	ctxName string
 	consts  map[types.Object]bool // parameters bound to a boolean constant by the caller (the callee is specialised)
+	loopDepth int
 }
 
 func NewCtAnalysis(eng *Engine) *ctAnalysis {
@@ -351,6 +353,9 @@ func (fr *ctFrame) text(n ast.Node) string {
 }
 
 func (fr *ctFrame) oblige(kind string, n ast.Node, ok bool, what string) {
+	if fr.an.quiet {
+		return
+	}
 	txt := fr.text(n)
 	if len(txt) > 70 {
 		txt = txt[:70]
@@ -1163,6 +1168,11 @@ func (fr *ctFrame) stmt(s ast.Stmt) {
 			return
 		}
 		c := fr.eval(x.Cond)
+		if c.v && fr.ct != nil && fr.ct.Verdicts && fr.loopDepth == 0 && fr.verdictShaped(x) {
+			// the function's accept/reject verdict: outside every loop, and each arm only returns public values
+			fr.an.declUsed[fr.fi.Key+": verdict branch `"+fr.text(x.Cond)+"`"] = "verdict-shaped (clause `verdicts`): not inside a loop, every arm only returns values that do not depend on a secret"
+			c.v = false
+		}
 		fr.oblige("ct-branch", x.Cond, !c.v, "branch condition depends on a secret")
 		base := fr.env
 		fr.env = base.clone()
@@ -1254,6 +1264,59 @@ func (fr *ctFrame) stmt(s ast.Stmt) {
 	}
 }
 
+// verdictShaped: every arm of the if (recursively through nested ifs) consists only of return statements whose
+// results are public in the current environment; an absent else arm is fine (the code after the if is not a verdict arm).
+func (fr *ctFrame) verdictShaped(x *ast.IfStmt) bool {
+	var armOK func(b ast.Stmt) bool
+	armOK = func(b ast.Stmt) bool {
+		switch y := b.(type) {
+		case *ast.BlockStmt:
+			if len(y.List) == 0 {
+				return false
+			}
+			for _, st := range y.List {
+				if !armOK(st) {
+					return false
+				}
+			}
+			return true
+		case *ast.ReturnStmt:
+			for _, r := range y.Results {
+				saved := fr.an.quiet
+				fr.an.quiet = true
+				t := fr.eval(r)
+				fr.an.quiet = saved
+				if t.any() {
+					return false
+				}
+			}
+			return true
+		case *ast.IfStmt:
+			if y.Init != nil {
+				return false
+			}
+			if !armOK(y.Body) {
+				return false
+			}
+			if y.Else != nil {
+				return armOK(y.Else)
+			}
+			return true
+		}
+		return false
+	}
+	if x.Init != nil {
+		return false
+	}
+	if !armOK(x.Body) {
+		return false
+	}
+	if x.Else != nil {
+		return armOK(x.Else)
+	}
+	return true
+}
+
 // constCond: conditions that are a parameter bound to a boolean constant by the caller (or its negation).
 func (fr *ctFrame) constCond(e ast.Expr) (bool, bool) {
 	switch x := unparen(e).(type) {
@@ -1311,6 +1374,8 @@ func (fr *ctFrame) call1(e ast.Expr) []tv {
 
 // loop runs body/post to a fixpoint; continue/break environments are merged at the right places.
 func (fr *ctFrame) loop(body func(), post func()) {
+	fr.loopDepth++
+	defer func() { fr.loopDepth-- }()
 	savedC, savedB := fr.conts, fr.breaks
 	entry := fr.env.clone()
 	var exit *ctEnv
